@@ -33,7 +33,7 @@ PH_COLS = ["change_scores", "page_hinkley_values", "page_hinkley_differences", "
 
 
 def cases(tier, seed):
-    n = 220 if tier == "quick" else 2500
+    n = 220 if tier == "quick" else 8000
     out = []
     for det in ("CUSUM", "PH"):
         for i in range(n):
